@@ -33,14 +33,17 @@ Example now_mixed :
   eval cfg_now w_mixed = VComb KModel [IIdx 0 false 0; IIdx 1 false 1; IIdx 2 true 2; IIdx 3 false 3].
 Proof. vm_compute. reflexivity. Qed.
 
-(* ---------- /repo today: (a + b) + (c + d).with_free_parameters(p) is accepted silently ---------- *)
+(* ---------- before 9d1b558: (a + b) + (c + d).with_free_parameters(p) was accepted silently ---------- *)
 Definition w_free_right : expr := Add (Add (Leaf 0 false) (Leaf 1 false)) (Free (Add (Leaf 2 false) (Leaf 3 false))).
-Example w_free_right_now :
-  eval cfg_now w_free_right = VComb KPlain [IPlain 0 false; IPlain 1 false; IIdx 2 false 0; IIdx 3 false 1].
+Example w_free_right_round2 :
+  eval cfg_round2 w_free_right = VComb KPlain [IPlain 0 false; IPlain 1 false; IIdx 2 false 0; IIdx 3 false 1].
 Proof. vm_compute. reflexivity. Qed.
-Lemma free_right_refuted : exists e, eval cfg_now e <> spec_struct e.
+Lemma free_right_legacy_refuted : exists e, eval cfg_round2 e <> spec_struct e.
 Proof. exists w_free_right. vm_compute. discriminate. Qed.
-Example w_free_right_repaired : eval cfg_fixed w_free_right = VErr.
+Example w_free_right_now : eval cfg_now w_free_right = VErr.
+Proof. vm_compute. reflexivity. Qed.
+(* with_free_parameters twice is legal: the members are re-wrapped again *)
+Example w_free_twice : eval cfg_now (Free (Free (Add (Leaf 0 false) (Leaf 1 true)))) = VComb KFree [IIdx 0 false 0; IIdx 1 true 1].
 Proof. vm_compute. reflexivity. Qed.
 Example w_free_left_raises : eval cfg_now (Add (Free (Add (Leaf 2 false) (Leaf 3 false))) (Leaf 0 false)) = VErr.
 Proof. vm_compute. reflexivity. Qed.
